@@ -28,6 +28,12 @@ type Connection struct {
 	// The frames have to reach the socket in the order they were encrypted.
 	writeMutex sync.Mutex
 
+	// Event notifications must not interrupt the response to a request. While a request
+	// is handled (busy) notifications are kept back and written when the response is done.
+	eventMutex    sync.Mutex
+	busy          bool
+	pendingEvents [][]byte
+
 	// Received bytes which are not decrypted yet (incomplete frame or following frames)
 	encrypted []byte
 
@@ -148,6 +154,41 @@ func (con *Connection) Write(b []byte) (n int, err error) {
 	}
 
 	return n, err
+}
+
+// WriteEvent writes an event notification (or keep alive message) to the connection.
+// HAP does not allow notifications in the middle of a response: when a request is being
+// handled on the connection, the notification is written after the response is complete.
+func (con *Connection) WriteEvent(b []byte) (int, error) {
+	con.eventMutex.Lock()
+	defer con.eventMutex.Unlock()
+
+	if con.busy {
+		con.pendingEvents = append(con.pendingEvents, append([]byte(nil), b...))
+		return len(b), nil
+	}
+
+	return con.Write(b)
+}
+
+// SetBusy marks the connection as handling a request (true), or as idle again (false).
+// Notifications which were kept back while the connection was busy are written now.
+func (con *Connection) SetBusy(busy bool) {
+	con.eventMutex.Lock()
+	defer con.eventMutex.Unlock()
+
+	con.busy = busy
+	if busy {
+		return
+	}
+
+	pending := con.pendingEvents
+	con.pendingEvents = nil
+	for _, b := range pending {
+		if _, err := con.Write(b); err != nil {
+			return
+		}
+	}
 }
 
 // Read reads bytes from the connection. The read bytes are decrypted when possible.
